@@ -134,7 +134,7 @@ func (x *hs) checkOwn(s *srv.Server, u idUser, canon, when string) error {
 	wantMarkers := []string{u.tag + "-m"}
 	if strings.Join(boxes, ",") != strings.Join(wantBoxes, ",") || strings.Join(markers, ",") != strings.Join(wantMarkers, ",") {
 		res.Fail(canon, fmt.Sprintf("%s: the user with ID %q sees mailboxes %v and messages %v; its own are %v and %v", when, u.id, boxes, markers, wantBoxes, wantMarkers),
-			map[string]interface{}{"id": u.id, "when": when, "boxes": boxes, "markers": markers})
+			map[string]interface{}{"id": u.id, "when": when, "boxes": boxes, "markers": markers, "history": x.idHistory})
 	}
 	return nil
 }
@@ -149,6 +149,11 @@ func (x *hs) idIsolation() error {
 		{"ünï-1", "ünï-2"},
 		{"a%3Fb", "a?b"},
 		{"semi;1", "semi;2"},
+		// opaque IDs: letter case, byte-level differences of equivalent Unicode spellings, trailing dots / spaces matter
+		{"AbC", "abc", "ABC"},
+		{"caf\u00e9", "cafe\u0301", "CAF\u00c9"},
+		{"dot", "dot.", "dot.."},
+		{"sp", "sp ", "sp  "},
 	}
 	for _, g := range groups {
 		canon := fmt.Sprintf("isolation user-ids ids=%q", g)
@@ -158,6 +163,13 @@ func (x *hs) idIsolation() error {
 			return err
 		}
 		us := mkIDUsers(g)
+		x.idHistory = nil
+		for _, u := range us {
+			x.idHistory = append(x.idHistory, fmt.Sprintf("LoadUser(id=%q, login %s)", u.id, u.name))
+		}
+		for _, u := range us {
+			x.idHistory = append(x.idHistory, fmt.Sprintf("%s: LOGIN; CREATE only-%s; APPEND INBOX (marker %s-m); LOGOUT", u.name, u.tag, u.tag))
+		}
 		s, err := startIDs(dir, us)
 		if err != nil {
 			// the users of one group are loaded one after the other: a failure here is the second one meeting the
@@ -222,6 +234,10 @@ func (x *hs) removeUserFiles() error {
 		{"a*", []string{"abc", "a", "axyz"}},
 		{"a?c", []string{"abc", "a-c"}},
 		{"u[12]", []string{"u1", "u2"}},
+		{"AbC", []string{"abc", "ABC"}},
+		{"dot.", []string{"dot", "dot.."}},
+		{"sp ", []string{"sp", "sp  "}},
+		{"caf\u00e9", []string{"cafe\u0301"}},
 	}
 	for _, rd := range rounds {
 		canon := fmt.Sprintf("isolation remove-user removed=%q", rd.remove)
